@@ -16,19 +16,55 @@ def op_mk(c):
     return tb_obs(TextBlock(build(c['c']), header=build(c['h'])))
 
 
+def snap(o):
+    """deep observation of a content object handed to a block"""
+    if isinstance(o, TextBlock):
+        return ['tb', list(o._header), list(o.lines)]
+    if isinstance(o, list):
+        return ['l'] + [snap(x) for x in o]
+    if isinstance(o, dict):
+        return ['d'] + [[k, snap(v)] for k, v in o.items()]
+    return ['o', str(o)]
+
+
+def scribble(o):
+    """what a caller may do to ITS OWN objects after handing them to a block"""
+    if isinstance(o, TextBlock):
+        o.append('SCRIBBLED BY THE CALLER')
+    elif isinstance(o, list):
+        for x in o:
+            scribble(x)
+        o.append('SCRIBBLED BY THE CALLER')
+    elif isinstance(o, dict):
+        for v in list(o.values()):
+            scribble(v)
+        o['scribble'] = 'SCRIBBLED BY THE CALLER'
+
+
 def op_hist(c):
-    tb = TextBlock(build(c['c']), header=build(c['h']))
+    operands = []
+
+    def operand(x):
+        o = build(x)
+        operands.append([o, snap(o)])
+        return o
+
+    def operands_untouched(when):
+        for o, s in operands:
+            assert snap(o) == s, f'{when}: the block changed an object that was handed to it as content or header'
+    tb = TextBlock(operand(c['c']), header=operand(c['h']))
     out = [tb_obs(tb)]
+    operands_untouched('construction')
     for op in c['ops']:
         k = op[0]
         if k == 'append':
-            r = tb.append(build(op[1]))
+            r = tb.append(operand(op[1]))
             assert r is tb
         elif k == 'iadd':
-            tb += build(op[1])
+            tb += operand(op[1])
         elif k == 'add':
             before = tb_obs(tb)
-            new = tb + build(op[1])
+            new = tb + operand(op[1])
             assert tb_obs(tb) == before, '__add__ modified its left operand'
             tb = new
         elif k == 'trim':
@@ -40,6 +76,12 @@ def op_hist(c):
         elif k == 'setlines':
             tb.lines = list(op[1])
         out.append(tb_obs(tb))
+        operands_untouched(k)
+    # the block holds its own copy of everything: what the caller does to the objects afterwards does not reach it
+    final = tb_obs(tb)
+    for o, _ in operands:
+        scribble(o)
+    assert tb_obs(tb) == final, 'the block changed when the caller modified an object it had handed over earlier (aliased, not copied)'
     return out
 
 
@@ -75,9 +117,14 @@ def op_cond_chunk(c):
 
 def op_comment(c):
     """render twice, extend, render again; report renders and the lines buffer before/after"""
-    cm = Comment(build(c['c']))
+    src = build(c['c'])
+    src_before = snap(src)
+    cm = Comment(src)
     before = list(cm.lines)
     r1 = str(cm)
+    assert snap(src) == src_before, 'constructing or rendering a Comment changed the object it was built from'
+    scribble(src)     # the caller's object is the caller's: the comment keeps the text it was given
+    assert list(cm.lines) == before and str(cm) == r1, 'the comment changed when the caller modified the object it was built from'
     mid = list(cm.lines)
     r2 = str(cm)
     cm.append(c['more'])
